@@ -51,7 +51,7 @@ func hDoc(p string) []byte {
 }
 
 func hPatch(p string) []byte {
-	return []byte(`[{"op":"add","path":"/z","value":` + hDigit(p+"v") + `},{"op":"copy","from":"/b","path":"/y"},{"op":"test","path":"/l","value":[ 1 , null ]},{"op":"test","path":"/w","value":{ "k" : [ 1 ] }},{"op":"add","path":"/huge","value":1e400},{"op":"add","path":"/nl","value":[1]},{"op":"add","path":"/nl/-","value":2},{"op":"add","path":"/no","value":{"x":1,"y":2}},{"op":"remove","path":"/no/y"},{"op":"replace","path":"/no/x","value":[]}]`)
+	return []byte(`[{"op":"add","path":"/z","value":` + hDigit(p+"v") + `},{"op":"copy","from":"/b","path":"/y"},{"op":"test","path":"/l","value":[ 1 , null ]},{"op":"test","path":"/w","value":{ "k" : [ 1 ] }},{"op":"add","path":"/huge","value":1e400},{"op":"add","path":"/nl","value":[1]},{"op":"add","path":"/nl/-","value":2},{"op":"add","path":"/no","value":{"x":1,"y":2}},{"op":"remove","path":"/no/y"},{"op":"replace","path":"/no/x","value":[]},{"op":"add","path":"/nn","value":null},{"op":"test","path":"/nn","value":null}]`)
 }
 
 func hMergePatch(p string) []byte {
@@ -180,6 +180,7 @@ func H_History() {
 		r2 = B.run()
 	})
 	vx.Assert(!panicked, "C04/history-no-panic")
+	vx.Assert(!panicked, "C09/history-returns")
 	if panicked {
 		vx.Note("panic", []byte(vx.PanicMsg()))
 		return
@@ -217,8 +218,12 @@ func H_SharedPatch() {
 			b   []byte
 		}
 		var snaps []rawSnap
+		nilBefore := map[string]bool{}
+		members := 0
 		for i, op := range p {
 			for k, v := range op {
+				members++
+				nilBefore[itoa(i)+"/"+k] = v == nil
 				if v != nil {
 					snaps = append(snaps, rawSnap{i, k, clone(*v)})
 				}
@@ -228,7 +233,24 @@ func H_SharedPatch() {
 		o2, e2 = p.Apply(d2)
 		o3, e3 = p.Apply(d1)
 		for _, s := range snaps {
+			if p[s.op][s.key] == nil {
+				rawOK = false
+				continue
+			}
 			rawOK = vx.And(rawOK, vx.EqBytes(s.b, *p[s.op][s.key]))
+		}
+		// the Patch value itself (a slice of maps): same members, and a member decoded from null (a nil message) stays nil
+		after := 0
+		for i, op := range p {
+			for k, v := range op {
+				after++
+				if was, ok := nilBefore[itoa(i)+"/"+k]; !ok || was != (v == nil) {
+					rawOK = false
+				}
+			}
+		}
+		if after != members {
+			rawOK = false
 		}
 		q1, _ := jsonpatch.DecodePatch(pB)
 		f1, g1 = q1.Apply(d1)
@@ -247,6 +269,7 @@ func H_SharedPatch() {
 		chained, _ = rm.Apply(chainIn)
 	})
 	vx.Assert(!panicked, "C04/shared-patch-no-panic")
+	vx.Assert(!panicked, "C09/shared-patch-returns")
 	if panicked {
 		vx.Note("panic", []byte(vx.PanicMsg()))
 		return
@@ -293,6 +316,7 @@ func H_Repeat_Stable() {
 		m2, _ = jsonpatch.CreateMergePatch([]byte(`{"a":1,"b":2,"c":3}`), []byte(`{"a":2,"b":3,"c":4,"d":`+d+`}`))
 	})
 	vx.Assert(!panicked, "C04/repeat-no-panic")
+	vx.Assert(!panicked, "C09/repeat-returns")
 	if panicked {
 		return
 	}
